@@ -200,6 +200,16 @@ pub fn get_rates(deps: &Deps) -> (Decimal, Decimal) {
     }
 }
 
+/// Computes the deadline `now + period` (both in seconds), refusing results that
+/// overflow or that cannot be represented as a [cosmwasm_std::Timestamp]
+/// (nanoseconds in a u64), which is how deadlines are reported by the queries.
+pub fn checked_deadline(now_seconds: u64, period: u64) -> StdResult<u64> {
+    now_seconds
+        .checked_add(period)
+        .filter(|deadline| *deadline <= u64::MAX / 1_000_000_000)
+        .ok_or_else(|| StdError::generic_err("period overflows the block time"))
+}
+
 /// Checks if the provided denom is valid or not.
 pub fn validate_denom(denom: impl Into<String>) -> StdResult<String> {
     let denom: String = denom.into();
